@@ -1,6 +1,11 @@
 package main
 
 import (
+	"os"
+	crand "crypto/rand"
+	"math/big"
+
+	"golang.org/x/crypto/ocsp"
 	stdx509 "crypto/x509"
 	"crypto/x509/pkix"
 	"encoding/asn1"
@@ -121,6 +126,28 @@ func certZoo() []ZooCert {
 				t.EmailAddresses = []string{"a@example.com"}
 			}
 			issueT("ku-eku", fmt.Sprintf("%v-%d", es, ku), t)
+		}
+	}
+	// (1b) extended key usages the parser has no constant for (they land in UnknownExtKeyUsage), alone and next to known
+	// ones, under every scope profile
+	{
+		unknown := []asn1.ObjectIdentifier{{1, 3, 6, 1, 5, 5, 7, 3, 36}, {1, 3, 6, 1, 4, 1, 311, 10, 3, 12}, {1, 2, 3, 4, 5}}
+		for _, p := range scopeProfiles() {
+			for vi, known := range [][]stdx509.ExtKeyUsage{nil, {stdx509.ExtKeyUsageEmailProtection}, {stdx509.ExtKeyUsageServerAuth}, {stdx509.ExtKeyUsageClientAuth, stdx509.ExtKeyUsageEmailProtection}} {
+				for ui := range unknown {
+					t := leafTemplate()
+					t.NotBefore = time.Date(2024, 10, 1, 0, 0, 0, 0, time.UTC)
+					t.NotAfter = time.Date(2025, 3, 1, 0, 0, 0, 0, time.UTC)
+					p.apply(t)
+					t.ExtKeyUsage = known
+					t.UnknownExtKeyUsage = []asn1.ObjectIdentifier{unknown[ui]}
+					if vi == 3 && ui == 0 {
+						t.UnknownExtKeyUsage = unknown
+					}
+					t.RawSubject = rawSubject(p.base, nil)
+					issueT("unknown-eku", fmt.Sprintf("%s-%d-%d", p.name, vi, ui), t)
+				}
+			}
 		}
 	}
 	// (2) signature algorithm substitution on generated leaves
@@ -403,5 +430,114 @@ func init() {
 		out.Data["classes"] = zooClasses(z)
 		out.Stats["zoo"] = len(z)
 		return out.Emit()
+	}
+}
+
+// crlZoo / ocspZoo: generated revocation lists and OCSP responses (the corpus holds 28 and 2): entry reason codes of
+// every value incl. negative and large ones, entry and list extensions that are present but odd, response statuses,
+// absent nextUpdate.  Only what the parsers accept is returned.
+var crlZooCache []CorpusCRL
+var ocspZooCache []CorpusOCSP
+
+func crlZoo() []CorpusCRL {
+	if crlZooCache != nil {
+		return crlZooCache
+	}
+	rng := NewRng(seedFromEnv(), "zoo-crl")
+	k := getKit()
+	reasonCodes := []int{-1, -128, -1 << 20, 0, 1, 2, 3, 4, 5, 6, 7, 8, 9, 10, 11, 12, 127, 128, 255, 1 << 20}
+	n := 80
+	if tier() == "thorough" {
+		n = 600
+	}
+	for i := 0; i < n; i++ {
+		tmpl := &stdx509.RevocationList{Number: big.NewInt(int64(1 + rng.Intn(1000))), ThisUpdate: time.Date(2024, 1, 1+rng.Intn(20), 0, 0, 0, 0, time.UTC)}
+		if rng.Intn(6) != 0 {
+			tmpl.NextUpdate = tmpl.ThisUpdate.Add(time.Duration(1+rng.Intn(400)) * 24 * time.Hour)
+		} else {
+			tmpl.NextUpdate = tmpl.ThisUpdate.Add(time.Hour)
+		}
+		for j := rng.Intn(4); j > 0; j-- {
+			e := stdx509.RevocationListEntry{SerialNumber: big.NewInt(int64(1 + rng.Intn(1<<30))), RevocationTime: tmpl.ThisUpdate.Add(-time.Duration(rng.Intn(1000)) * time.Hour)}
+			if i < len(reasonCodes) {
+				e.ReasonCode = reasonCodes[i]
+			} else if rng.Intn(3) != 0 {
+				e.ReasonCode = pick(rng, reasonCodes)
+			}
+			if rng.Intn(4) == 0 {
+				e.ExtraExtensions = append(e.ExtraExtensions, pkix.Extension{Id: asn1.ObjectIdentifier{2, 5, 29, 24}, Value: pick(rng, [][]byte{{0x18, 0x0f, '2', '0', '2', '3', '0', '1', '0', '1', '0', '0', '0', '0', '0', '0', 'Z'}, {0x18, 0x00}, {0x05, 0x00}})})
+			}
+			tmpl.RevokedCertificateEntries = append(tmpl.RevokedCertificateEntries, e)
+		}
+		if i < len(reasonCodes) && len(tmpl.RevokedCertificateEntries) == 0 {
+			tmpl.RevokedCertificateEntries = []stdx509.RevocationListEntry{{SerialNumber: big.NewInt(77), RevocationTime: tmpl.ThisUpdate.Add(-time.Hour), ReasonCode: reasonCodes[i]}}
+		}
+		switch rng.Intn(6) {
+		case 0:
+			tmpl.ExtraExtensions = append(tmpl.ExtraExtensions, pkix.Extension{Id: asn1.ObjectIdentifier{2, 5, 29, 28}, Critical: true, Value: []byte{0x30, 0x00}})
+		case 1:
+			tmpl.ExtraExtensions = append(tmpl.ExtraExtensions, pkix.Extension{Id: asn1.ObjectIdentifier{2, 5, 29, 46}, Value: []byte{0x30, 0x00}})
+		case 2:
+			tmpl.ExtraExtensions = append(tmpl.ExtraExtensions, pkix.Extension{Id: asn1.ObjectIdentifier{2, 5, 29, 27}, Critical: true, Value: []byte{0x02, 0x01, 0x01}})
+		}
+		der, err := stdx509.CreateRevocationList(crand.Reader, tmpl, k.caCert, k.caKey)
+		if err != nil {
+			continue
+		}
+		crl, err := safeParseCRL(der)
+		if err != nil {
+			continue
+		}
+		crlZooCache = append(crlZooCache, CorpusCRL{fmt.Sprintf("zoo-crl-%d", i), der, crl})
+	}
+	return crlZooCache
+}
+
+func ocspZoo() []CorpusOCSP {
+	if ocspZooCache != nil {
+		return ocspZooCache
+	}
+	rng := NewRng(seedFromEnv(), "zoo-ocsp")
+	k := getKit()
+	n := 40
+	if tier() == "thorough" {
+		n = 300
+	}
+	for i := 0; i < n; i++ {
+		now := time.Date(2025, 2, 1+rng.Intn(20), rng.Intn(24), 0, 0, 0, time.UTC)
+		t := ocsp.Response{Status: pick(rng, []int{ocsp.Good, ocsp.Revoked, ocsp.Unknown}), SerialNumber: big.NewInt(int64(1 + rng.Intn(1<<20))),
+			ThisUpdate: now.Add(time.Duration(rng.Intn(5)-2) * time.Hour), ProducedAt: now}
+		if rng.Intn(3) != 0 {
+			t.NextUpdate = now.Add(time.Duration(rng.Intn(200)-20) * time.Hour)
+		}
+		if t.Status == ocsp.Revoked {
+			t.RevokedAt = now.Add(-time.Hour)
+			t.RevocationReason = pick(rng, []int{0, 1, 5, 7, 10, 11, 255})
+		}
+		der, err := ocsp.CreateResponse(k.caCert, k.caCert, t, k.caKey)
+		if err != nil {
+			continue
+		}
+		r, err := safeParseOCSP(der)
+		if err != nil {
+			continue
+		}
+		ocspZooCache = append(ocspZooCache, CorpusOCSP{fmt.Sprintf("zoo-ocsp-%d", i), der, r})
+	}
+	return ocspZooCache
+}
+
+func init() {
+	commands["zoodump"] = func(args []string) error {
+		for _, zc := range certZoo() {
+			if len(args) > 0 && strings.Contains(zc.File, args[0]) {
+				c := zc.Cert
+				fmt.Fprintf(os.Stderr, "%s eku=%v unknown=%v policies=%v emails=%v nb=%v isCA=%v selfSigned=%v\n", zc.File, c.ExtKeyUsage, c.UnknownExtKeyUsage, c.PolicyIdentifiers, c.EmailAddresses, c.NotBefore, c.IsCA, c.SelfSigned)
+				if len(args) > 1 {
+					fmt.Fprintf(os.Stderr, "   %s -> %d\n", args[1], runCertLint(args[1], c))
+				}
+			}
+		}
+		return nil
 	}
 }
